@@ -505,9 +505,17 @@ func (s *boardSession) checkC05(l *live) {
 			s.res.Violate("C05", kind, s.step, "b%d reports %v %s", l.id, r, desc())
 			return
 		}
-		ok := (r.Reason == board.Repetition3 && ev.Rep3 && !ev.Rep5) || (r.Reason == board.Repetition5 && ev.Rep5) ||
-			(r.Reason == board.NoProgress && ev.Fifty) || (r.Reason == board.InsufficientMaterial && ev.Material)
-		if !ok {
+		names := func(e rules.DrawEvents) bool {
+			return (r.Reason == board.Repetition3 && e.Rep3) || (r.Reason == board.Repetition5 && e.Rep5) ||
+				(r.Reason == board.NoProgress && e.Fifty) || (r.Reason == board.InsufficientMaterial && e.Material)
+		}
+		// The reason must name an event that holds here, or one that held earlier in this game (a
+		// result, once drawn, may be carried along); a repetition must be named five-fold from the fifth occurrence.
+		if r.Reason == board.Repetition3 && ev.Rep5 {
+			s.res.Violate("C05", "draw-reason-wrong", s.step, "b%d reports %v at the fifth occurrence %s", l.id, r, desc())
+			return
+		}
+		if !names(ev) && !names(l.g.EverEvents()) {
 			s.res.Violate("C05", "draw-reason-wrong", s.step, "b%d reports %v %s", l.id, r, desc())
 		}
 		return
